@@ -479,14 +479,14 @@ theorem class_round_trip_none_attrs_example :
 
 /-- **Known finding (`text-roundtrip-fails:map-key:integer`), kernel-checked on the model.**  The round-trip
     theorems above are about the Python document `Serializer(x).serialize()` returns.  A Map with Integer keys
-    serializes to an object whose keys are ints; it lies outside `inFrag` (which demands String keys), and for a
-    reason: `json.loads(json.dumps(doc))` (`jsonRound`) turns the keys into strings, which the Integer key field
-    then refuses — the round trip through JSON TEXT fails although the one through the Python document succeeds. -/
+    serializes to an object whose keys are ints; it lies inside `inFrag` (String or Integer keys), so the round
+    trip of the PYTHON document is proved; but `json.loads(json.dumps(doc))` (`jsonRound`) turns the keys into
+    strings, which the Integer key field then refuses — the round trip through JSON TEXT fails. -/
 theorem map_int_keys_text_counterexample :
     let cls : FieldDecl := .struct { name := "A", required := ["m"], accepts := ["A"] }
       [("m", .mapOf (.integer {}) (.string none none none) {})] []
     let x : PyVal := .inst "A" [("m", .dict [(.int 1, .str "a")])]
-    inFrag exO cls x = false
+    inFrag exO cls x = true
     ∧ (match serialize exO cls x with
         | .ok j => (match deserialize exO {} cls j with
             | .ok (.inst "A" [("m", .dict [(.int 1, .str "a")])]) => true       -- the Python document round-trips
